@@ -6,6 +6,8 @@ import Std.Data.HashMap
 import Seccomp.Driver.Loader
 import Seccomp.Driver.Raw
 import Seccomp.Driver.Text
+import Seccomp.Driver.Cache
+import Seccomp.Driver.Profile
 /-!
 # Line-protocol driver of the executable model (`lean_exe model`)
 
@@ -314,6 +316,8 @@ def handle (A : Arches) (line : String) : String :=
   | "K" :: rest => Driver.Raw.handleK rest
   | "D" :: rest => DisasmDriver.handle rest
   | "TXT" :: rest => Driver.Text.handle rest
+  | "CACHE" :: rest => Driver.Cache.handle rest
+  | "F" :: rest => Driver.Profile.handle (fun a => (A.infos.get? a).map (·.lookup)) rest
   | _ => "BAD-REQUEST"
 
 partial def loop (A : Arches) (hin hout : IO.FS.Stream) : IO Unit := do
